@@ -108,9 +108,11 @@ Check C14_faithful :
   srun D ST ns (sinit init nodes) ls = Some st ->
   let k := g_calls (s_g st) c in
   k_x k = Some a -> k_st k = CS_done (O_rows u pg nr cl) ->
-  (k_ext k = true \/ xa_use_cached a = false) ->
+  ~ KnownClass (k_ext k) (xa_use_cached a) ->
   exists enc p, s_enc st c = Some (enc, p) /\ m_cols u = enc /\
                 pg = p_paging p /\ nr = p_nrows p /\ cl = p_cells p.
+Check C14_known_class_dec :
+  forall ext uc, known_classb ext uc = true <-> KnownClass ext uc.
 Check C14_spec_is_generic :
   forall (D : schema) (ST : nat -> stmt) (ns : nat) (init : nat -> meta),
   (forall s v v', mid_of D s v = mid_of D s v' -> cols_of D s v = cols_of D s v') ->
@@ -140,7 +142,7 @@ Check C14_evicted_recovers :
   exists st' u,
     srun D ST ns st [SL_serve c p0; SL_recv c; SL_serve c p1; SL_recv c; SL_tick c; SL_serve c p; SL_recv c] = Some st' /\
     k_st (g_calls (s_g st') c) = CS_done (O_rows u (p_paging p) (p_nrows p) (p_cells p)) /\
-    ((k_ext k = true \/ xa_use_cached a = false) -> m_cols u = cols_of D s (n_ver nd s)).
+    (~ KnownClass (k_ext k) (xa_use_cached a) -> m_cols u = cols_of D s (n_ver nd s)).
 Check C14_accept_sound :
   forall ST tr st c c' st',
   g_accept ST st c tr = (c', V_ok st') ->
@@ -149,6 +151,13 @@ Check C14_accept_sound :
 Check C14_spec_accept_sound :
   forall D ST ns tr st c c' st',
   s_accept D ST ns st c tr = (c', V_ok st') -> exists ls, srun D ST ns st ls = Some st'.
+Check C14_faithful_refuted :
+  exists ls st c a u pg nr cl enc p,
+    srun exD exST 1 (sinit (exInit false) (exNodes false)) ls = Some st /\
+    k_x (g_calls (s_g st) c) = Some a /\
+    k_st (g_calls (s_g st) c) = CS_done (O_rows u pg nr cl) /\
+    KnownClass (k_ext (g_calls (s_g st) c)) (xa_use_cached a) /\
+    s_enc st c = Some (enc, p) /\ m_cols u <> enc.
 Print Assumptions C14_transparent.
 Print Assumptions C14_direct.
 Print Assumptions C14_id_changed.
@@ -160,7 +169,9 @@ Print Assumptions C14_next_id.
 Print Assumptions C14_frame_presents_id.
 Print Assumptions C14_never_skip_with_empty.
 Print Assumptions C14_faithful.
+Print Assumptions C14_known_class_dec.
 Print Assumptions C14_spec_is_generic.
 Print Assumptions C14_evicted_recovers.
 Print Assumptions C14_accept_sound.
 Print Assumptions C14_spec_accept_sound.
+Print Assumptions C14_faithful_refuted.
